@@ -50,6 +50,15 @@ use crate::backend::vector::avx2::constants::{
 
 use curve25519_dalek_derive::unsafe_target_feature;
 
+/// Verification hook (needs `--cfg curve25519_dalek_verif --cfg curve25519_dalek_verif_bounds`):
+/// record the limb magnitudes a kernel was entered with.
+#[cfg(curve25519_dalek_verif_bounds)]
+#[inline(always)]
+fn verif_bound(site: usize, x: &FieldElement2625x4) {
+    let (e, o) = crate::verif::avx2::max_limbs(x);
+    crate::verif::bounds::record(site, e, o);
+}
+
 /// Unpack 32-bit lanes into 64-bit lanes:
 /// ```ascii,no_run
 /// (a0, b0, a1, b1, c0, d0, c1, d1)
@@ -372,6 +381,8 @@ impl FieldElement2625x4 {
     /// The coefficients of the result are bounded with \\( b < 1 \\).
     #[inline]
     pub fn negate_lazy(&self) -> FieldElement2625x4 {
+        #[cfg(curve25519_dalek_verif_bounds)]
+        verif_bound(crate::verif::bounds::AVX2_NEGATE_LAZY, self);
         // The limbs of self are bounded with b < 0.999, while the
         // smallest limb of 2*p is 67108845 > 2^{26+0.9999}, so
         // underflows are not possible.
@@ -395,6 +406,8 @@ impl FieldElement2625x4 {
     /// The coefficients of the result are bounded with \\( b < 1.6 \\).
     #[inline]
     pub fn diff_sum(&self) -> FieldElement2625x4 {
+        #[cfg(curve25519_dalek_verif_bounds)]
+        verif_bound(crate::verif::bounds::AVX2_DIFF_SUM, self);
         // tmp1 = (B, A, D, C)
         let tmp1 = self.shuffle(Shuffle::BADC);
         // tmp2 = (-A, B, -C, D)
@@ -410,6 +423,8 @@ impl FieldElement2625x4 {
     /// The coefficients of the result are bounded with \\( b < 0.0002 \\).
     #[inline]
     pub fn reduce(&self) -> FieldElement2625x4 {
+        #[cfg(curve25519_dalek_verif_bounds)]
+        verif_bound(crate::verif::bounds::AVX2_REDUCE, self);
         let shifts = u32x8::new(26, 26, 25, 25, 26, 26, 25, 25);
         let masks = u32x8::new(
             (1 << 26) - 1,
@@ -595,6 +610,8 @@ impl FieldElement2625x4 {
     /// The coefficients of the result are bounded with \\( b < 0.007 \\).
     #[rustfmt::skip] // keep alignment of z* calculations
     pub fn square_and_negate_D(&self) -> FieldElement2625x4 {
+        #[cfg(curve25519_dalek_verif_bounds)]
+        verif_bound(crate::verif::bounds::AVX2_SQUARE, self);
         #[inline(always)]
         fn m(x: u32x8, y: u32x8) -> u64x4 {
             x.mul32(y)
@@ -699,6 +716,8 @@ impl Neg for FieldElement2625x4 {
     /// The coefficients of the result are bounded with \\( b < 0.0002 \\).
     #[inline]
     fn neg(self) -> FieldElement2625x4 {
+        #[cfg(curve25519_dalek_verif_bounds)]
+        verif_bound(crate::verif::bounds::AVX2_NEG, &self);
         FieldElement2625x4([
             P_TIMES_16_LO - self.0[0],
             P_TIMES_16_HI - self.0[1],
@@ -736,6 +755,8 @@ impl Mul<(u32, u32, u32, u32)> for FieldElement2625x4 {
     /// The coefficients of the result are bounded with \\( b < 0.007 \\).
     #[inline]
     fn mul(self, scalars: (u32, u32, u32, u32)) -> FieldElement2625x4 {
+        #[cfg(curve25519_dalek_verif_bounds)]
+        verif_bound(crate::verif::bounds::AVX2_MUL_CONSTS, &self);
         let consts = u32x8::new(scalars.0, 0, scalars.1, 0, scalars.2, 0, scalars.3, 0);
 
         let (b0, b1) = unpack_pair(self.0[0]);
@@ -777,6 +798,10 @@ impl Mul<&FieldElement2625x4> for &FieldElement2625x4 {
     #[rustfmt::skip] // keep alignment of z* calculations
     #[inline]
     fn mul(self, rhs: &FieldElement2625x4) -> FieldElement2625x4 {
+        #[cfg(curve25519_dalek_verif_bounds)]
+        verif_bound(crate::verif::bounds::AVX2_MUL_LHS, self);
+        #[cfg(curve25519_dalek_verif_bounds)]
+        verif_bound(crate::verif::bounds::AVX2_MUL_RHS, rhs);
         #[inline(always)]
         fn m(x: u32x8, y: u32x8) -> u64x4 {
             x.mul32(y)
